@@ -19,7 +19,11 @@ macro_rules! listen_and_accept {
 				let acceptor = $acceptor.clone();
 				thread::spawn(move || {
 					debug!("new client");
-					let _ = acceptor.accept(stream).unwrap();
+					// A failed handshake (closed connection, garbage, unsupported protocol, ...)
+					// only concerns this client: it must not take the whole server down.
+					if let Err(e) = acceptor.accept(stream) {
+						debug!("handshake error: {e}");
+					}
 				});
 			};
 		}
